@@ -1027,7 +1027,41 @@ impl Callbacks for Cb {
         }
         out.push(']');
 
-        // layouts of requested monomorphic types are not needed by current rules.
+        // ---- layouts of monomorphic self types of impls (e.g. Block32Counters<2, 9>) and of non-generic ADTs
+        out.push_str(",\"layouts\":{");
+        {
+            use rustc_middle::ty::TypeVisitableExt;
+            let mut seen: std::collections::BTreeMap<String, (u64, u64)> = std::collections::BTreeMap::new();
+            let typing_env = ty::TypingEnv::fully_monomorphized();
+            for id in tcx.hir_free_items() {
+                let item = tcx.hir_item(id);
+                let did = item.owner_id.to_def_id();
+                let t = match item.kind {
+                    hir::ItemKind::Impl(..) => Some(tcx.type_of(did).skip_binder()),
+                    hir::ItemKind::Struct(..) => {
+                        if tcx.generics_of(did).count() == 0 { Some(tcx.type_of(did).skip_binder()) } else { None }
+                    }
+                    _ => None,
+                };
+                if let Some(t) = t {
+                    if t.has_param() || t.has_infer() || t.has_aliases() || !matches!(t.kind(), ty::Adt(..)) {
+                        continue;
+                    }
+                    if let Ok(l) = tcx.layout_of(typing_env.as_query_input(t)) {
+                        let name = ty::print::with_no_trimmed_paths!(format!("{}", t));
+                        seen.insert(name, (l.size.bytes(), l.align.abi.bytes()));
+                    }
+                }
+            }
+            let mut first = true;
+            for (k, (sz, al)) in seen.iter() {
+                if !first { out.push(','); }
+                first = false;
+                esc(k, &mut out);
+                let _ = write!(out, ":{{\"size\":{},\"align\":{}}}", sz, al);
+            }
+        }
+        out.push('}');
 
         out.push_str(",\"types\":");
         cx.types.dump(&mut out);
